@@ -143,7 +143,11 @@ def run_case(case):
             desc.update(order=cfg.order, rel_epsilon=cfg.rel_epsilon, tolerance=tol)
         else:  # fast paths: diagonal-flagged diagonal input and 1x1
             r = rnd.choice(ROOTS)
-            cfg = rnd.choice([EigenConfig(), EigenConfig(enhance_stability=True)])
+            # a config may carry an exponent multiplier: whoever folds it into the exponent, the fast paths and the general
+            # path must agree on it (the absolute value is then left to C01, which sees the caller's side of the fold)
+            mult = rnd.choice([1.0, 1.0, 0.5, 1.82])
+            cfg = EigenConfig(enhance_stability=rnd.random() < 0.5, exponent_multiplier=mult)
+            desc["config_exponent_multiplier"] = mult
             cm = C_M["diag"]
             if rnd.random() < 0.3:
                 n = 1
@@ -180,7 +184,7 @@ def run_case(case):
         asym = float((X - X.T).to(torch.float64).norm() / X.to(torch.float64).norm().clamp_min(1e-300))
         if asym > 64 * n * u and solver in ("eig", "eig_stab", "fast"):
             raise Violation(f"asymmetric result: ||X-X^T||/||X|| = {asym:.3g}", **desc)
-        applicable = bound <= 0.1
+        applicable = bound <= 0.1 and not (solver == "fast" and mult != 1.0)
         if solver in ("newton", "ho") and n >= 2:
             # narrowed claim (DESIGN C10): the accuracy bound with the solver's tolerance is judged only when the
             # solver reports convergence; a result returned with a non-convergence warning gets the weak checks
